@@ -23,6 +23,8 @@ pub fn units(tier: &str, seed: u64) -> Vec<String> {
         "U:ACS:TERMOSOLAR;P:TERMOSOLAR;U:NEPB:TERMOSOLAR;P:EL_INSITU;U:CAL:ELECTRICIDAD",
         "P:EL_COGEN;U:COGEN:GASNATURAL;P:EL_INSITU;U:CAL:ELECTRICIDAD",
         "1/P:EL_COGEN;1/U:COGEN:GASNATURAL;2/P:EL_INSITU;U:CAL:ELECTRICIDAD;U:NEPB:GASNATURAL",
+        // an auxiliary line alone in its system, PV surplus, no non-EPB use anywhere
+        "7/X;P:EL_INSITU;U:CAL:ELECTRICIDAD",
         // auxiliaries of a system whose only consumption is the cogeneration input
         "1/U:COGEN:GASNATURAL;1/P:EL_COGEN;1/X;2/P:EL_INSITU;U:CAL:ELECTRICIDAD",
     ];
